@@ -12,7 +12,9 @@ Spaces:
            208-resized character field, alone and next to an associated field / inside a replication;
   tree-*   E1 over the template grammar G(1,1) incl. nested bodies (thorough G(2,1)) with value deviations
            (flag tables, missing values, zero counts, 221, 204, 203, 205/206), 1 and 2 subsets, compressed too;
-  bitmap   the C07 structures (attributes on elements / factors, chained, reused bitmaps);
+  bitmap   the C07 structures (attributes on elements / factors, chained, reused bitmaps), also with subsets whose
+           descriptor lists are identical but whose bitmaps differ, and inside a replication;
+  dnp      221YYY spans (YYY = 1..6) that cover operators, replications and sequences, top level and in a replication;
   corpus   every sample message (quick: < 6000 bytes);
   cli      decode [-j] [-a] | encode [-j] [-a] through pybufrkit.main on a message pool.
 """
@@ -219,10 +221,11 @@ def run_structs(args):
         def body(ctx, descs=descs, queues=queues, free=free):
             try:
                 b, spec, subs, notes = S.build_struct_message(ctx, descs, queues, free, nsub=env['nsub'],
-                                                              compressed=env['compressed'], variant_of_subset=[0] * env['nsub'])
+                                                              compressed=env['compressed'],
+                                                              variant_of_subset=env.get('vmap') or [0] * env['nsub'])
             except codec.RefError:
                 return {'skip': 1}
-            if notes:
+            if notes and not env.get('ambiguous_ok'):
                 return {'skip': 1}
             return {'r': four_formats(b), 'bytes': b, 'links': len(subs[0].links)}
 
@@ -242,6 +245,20 @@ def run_structs(args):
     p.n['nodes'] += st.nodes
     p.n['edges'] += st.edges
     return p
+
+
+def dnp_structs():
+    """221YYY spans that cover operators, replications and sequences (not only plain elements).  Which descriptors FM-94
+    wants counted is not judged here: the renderings only have to agree with the implementation's own flat result."""
+    out = []
+    inner = [('op201', [201130, 12001, 12002, 201000]), ('op208', [208002, 1011, 12001, 208000]),
+             ('R2', [102002, 12001, 12002]), ('R1x1', [101001, 12001]), ('D', [102000, 31001, 12001, 1002]),
+             ('seq', [301011, 12001]), ('seq2', [301001, 12001, 301011]), ('plain', [12001, 1002, 12002])]
+    for iname, body in inner:
+        for y in range(1, 7):
+            out.append(('dnp|%s.%d' % (iname, y), [1001, 221000 + y] + body + [12003, 1002, 12004], [[]], [1]))
+            out.append(('dnp|%s.%d-in-R2' % (iname, y), [100000 + (len(body) + 3) * 1000 + 2, 221000 + y] + body + [12003, 1002], [[]], [1, 1]))
+    return out
 
 
 def run_corpus(msgs):
@@ -325,7 +342,7 @@ def replay(part, case):
         p = run_cli_part(None)
         return [{'sig': v['sig'], 'detail': v['detail']} for v in p.viol
                 if v['case']['descs'] == case['descs'] and v['case']['flags'] == case['flags']]
-    if part.startswith('bitmap'):
+    if part.startswith(('bitmap', 'data-not-present')):
         s = case['struct']
         p = run_structs(([(s[0], s[1], [[tuple(x) for x in q] for q in s[2]], s[3])], case['env']))
         return [{'sig': v['sig'], 'detail': v['detail']} for v in p.viol]
@@ -361,7 +378,12 @@ def main(tier, seed):
     L = 0 if tier == 'quick' else 1
     for name, structs, env in (('bitmap-chain1-u1', list(BM.chain1(L + 1)), dict(nsub=1, compressed=False)),
                                ('bitmap-chain1-c2', list(BM.chain1(L)), dict(nsub=2, compressed=True)),
-                               ('bitmap-chain2-u1', list(BM.chain2(L)), dict(nsub=1, compressed=False))):
+                               ('bitmap-chain2-u1', list(BM.chain2(L)), dict(nsub=1, compressed=False)),
+                               ('bitmap-chain1-u2-diff', list(BM.chain1(L, 2)), dict(nsub=2, compressed=False, vmap=[0, 1])),
+                               ('bitmap-chain1-u3-diff', list(BM.chain1(0, 2)), dict(nsub=3, compressed=False, vmap=[0, 1, 0])),
+                               ('bitmap-in-replication', list(BM.wrapped(BM.chain1(0), 2, True)), dict(nsub=1, compressed=False)),
+                               ('data-not-present-spans', dnp_structs(), dict(nsub=1, compressed=False, ambiguous_ok=True)),
+                               ('data-not-present-spans-c2', dnp_structs(), dict(nsub=2, compressed=True, ambiguous_ok=True))):
         p = merge_all(run_shards(run_structs, [(s, env) for s in split(structs, 64)]))
         rep.add_part(name, p, bounds=dict(structures=len(structs), **env))
     msgs = list(corpus.messages(max_bytes=6000 if tier == 'quick' else None))
